@@ -216,11 +216,14 @@ def _worker(args):
             call(rec, "Bf3File.read_file", lambda: Bf3File.read_file(io.StringIO(text), chk, key), label=label)
             L.rec_read(rec, text, key, chk, False, wd, label=label)
 
-        def do_bec2(text, plan, which, label):
+        def do_bec2(text, plan, which, label, chk=None):
             decs, privs = dec_sets(plan)[which]
-            call(rec, "Bec2File.read_file[%s]" % which, lambda: Bec2File.read_file(io.StringIO(text), [d[0] for d in decs]), label=label)
-            if True:
-                B2.rec_bec2_read(rec, text, decs, privs, orc, True, label=label)
+            if chk is None:
+                chk = r.random() < 0.75
+            # the decryptors in every legal form of Iterable[Encryptor]; MAC checking on and off
+            form = r.choice([list, tuple, iter, lambda x: (y for y in x)])
+            call(rec, "Bec2File.read_file[%s]" % which, lambda: Bec2File.read_file(io.StringIO(text), form([d[0] for d in decs]), chk), label=label)
+            B2.rec_bec2_read(rec, text, decs, privs, orc, chk, label=label)
 
         # ---- crafted inputs (every worker runs them once: cheap)
         for name, b in crafted_bf3(r):
@@ -243,7 +246,21 @@ def _worker(args):
                     do_bec2(hex_text(h + body.to_binary(len(h), plan0.key)), plan0, which, "crafted:valid-frame-%s-%d" % (kind, ln))
         for t, plan in bec2:
             for which in ("none", "private", "wrong", "public-only"):
-                do_bec2(t, plan, which, "valid")
+                for chk in (True, False):
+                    do_bec2(t, plan, which, "valid", chk)
+        # every mapped base tag type: a three-line section whose SECOND line carries another tag type (a sample of all 256 values
+        # per worker, the neighbours of the base type always): converts, or is refused with a format error
+        for bt in bf2lib.MAPPED + bf2lib.IGNORED:
+            for ty in sorted(set(r.sample(range(256), 40)) | {0, bt - 1, bt + 1, bt + bf2lib.PAGES[bt], 0xFD}):
+                if ty in (0xFE, 0xFF) or ty == bt:
+                    continue
+                Lb = bf2lib.Lines()
+                try:
+                    items = [bf2lib.cmt("Bf3Update", "1"), bf2lib.item("grp", runs=bf2lib.to_runs(Lb, [(bt, 0, 3), (ty, 3, 4), (bt, 7, 2)]))]
+                    t = bf2lib.print_text(items, Lb, r)
+                except Exception:                               # noqa: BLE001 -- the driver cannot print this layout
+                    continue
+                call(rec, "Bf3File.bf2_import", lambda t=t: Bf3File.bf2_import(io.StringIO(t), ty % 2 == 0), label="crafted:second-line-type")
         # grammar-level confusions: every instruction name used as a header comment and vice versa, in front of a data section
         data = ":0000FE00\n:0000350403000011\n:0000FF00\n"
         for nm in ("SELECT", "SELECT_IF", "CHECK_FWVER", "CRC", "REBOOT", "Firmware", "Creator", "Bf3Update"):
